@@ -236,4 +236,6 @@ func crafted() []core.Case {
 }
 
 // CraftedCases exposes the hand-made cases (used to write corpus/C09).
-func CraftedCases() []core.Case { return append(append(crafted(), craftedSeq()...), craftedDeep()...) }
+func CraftedCases() []core.Case {
+	return append(append(append(crafted(), craftedSeq()...), craftedDeep()...), craftedRound3()...)
+}
